@@ -4,8 +4,8 @@
     [C17/NamingProofs.v], [C17/HermeticProofs.v], [C17/LinecacheProofs.v]):
 
     - NAMING: the names under which attrs injects per-field helper objects into the
-      globals of the generated methods ([_make_repr_script]: [<n>_repr];
-      [_make_eq_script]/[_make_hash_script]: [_<n>_key]; [_attrs_to_init_script]:
+      globals of the generated methods ([_make_repr_script]: [__attr_repr_<n>];
+      [_make_eq_script]/[_make_hash_script]: [__attr_key_<n>]; [_attrs_to_init_script]:
       [__attr_factory_<n>], [Converter._get_global_name] = [__attr_converter_<n>],
       [__attr_validator_<n>], [__attr_field_<n>]) and the fixed names
       ([_GENERATED_CODE_BUILTINS], [_compat], [_config], [NOTHING], [attr_dict],
@@ -40,36 +40,50 @@ Definition role_eqb (a b : role) : bool :=
   | _, _ => false
   end.
 
-(** The four helper roles of [__init__] are named by a prefix. *)
+(** Every helper is named by a role prefix followed by the field name
+    ([_make_repr_script]: [__attr_repr_<n>]; [_make_eq_script] / [_make_hash_script]:
+    [__attr_key_<n>]; [_INIT_FACTORY_PAT], [Converter._get_global_name],
+    [_attrs_to_init_script]: the other four). *)
 Definition role_prefix (r : role) : string :=
   match r with
+  | RRepr => "__attr_repr_"
+  | RKey => "__attr_key_"
   | RFactory => "__attr_factory_"        (* _INIT_FACTORY_PAT *)
   | RConverter => "__attr_converter_"    (* Converter._get_global_name *)
   | RValidator => "__attr_validator_"
   | RField => "__attr_field_"
-  | RRepr | RKey => ""
   end.
 
 Definition helper_name (r : role) (n : string) : string :=
   match r with
-  | RRepr => n +++ "_repr"               (* name + "_repr" *)
-  | RKey => "_" +++ n +++ "_key"         (* f"_{a.name}_key" *)
+  | RRepr => "__attr_repr_" +++ n
+  | RKey => "__attr_key_" +++ n
   | RFactory => "__attr_factory_" +++ n
   | RConverter => "__attr_converter_" +++ n
   | RValidator => "__attr_validator_" +++ n
   | RField => "__attr_field_" +++ n
   end.
 
-Definition prefix_roles : list role := [RFactory; RConverter; RValidator; RField].
 Definition all_roles : list role := [RRepr; RKey; RFactory; RConverter; RValidator; RField].
+
+(** *** The scheme before the repair (documents what is excluded): the custom repr
+    callable was [<n>_repr] and the eq/hash key function [_<n>_key]. *)
+Definition old_helper_name (r : role) (n : string) : string :=
+  match r with
+  | RRepr => n +++ "_repr"               (* name + "_repr" *)
+  | RKey => "_" +++ n +++ "_key"         (* f"_{a.name}_key" *)
+  | _ => helper_name r n
+  end.
+
+Definition prefix_roles : list role := [RFactory; RConverter; RValidator; RField].
 
 Definition hits_prefix (s : string) : bool :=
   existsb (fun r => prefix (role_prefix r) s) prefix_roles.
 
-(** The guard on the field name of a custom-repr / eq-key helper: the name must not
-    run into one of the four prefixes.  [<n>_repr] is [(n ++ "_") ++ "repr"] and
-    [_<n>_key] is [("_" ++ n ++ "_") ++ "key"]; the guard says that the first factor
-    does not start with a role prefix.  It is tight ([name_guard_tight]). *)
+(** The guard the OLD scheme needed on the field name of a custom-repr / eq-key
+    helper: [<n>_repr] is [(n ++ "_") ++ "repr"] and [_<n>_key] is
+    [("_" ++ n ++ "_") ++ "key"]; the first factor must not start with one of the four
+    prefixes of the [__init__] helpers.  It was tight ([old_name_guard_tight]). *)
 Definition name_guard (r : role) (n : string) : bool :=
   match r with
   | RRepr => negb (hits_prefix (n +++ "_"))
@@ -77,8 +91,8 @@ Definition name_guard (r : role) (n : string) : bool :=
   | _ => true
   end.
 
-(** A simpler sufficient condition: the field name does not start with [_attr] or
-    [__attr] (ordinary private names [_x], [__x] stay allowed). *)
+(** A simpler sufficient condition for the old scheme: the field name does not start
+    with [_attr] or [__attr]. *)
 Definition plain_name (n : string) : bool :=
   negb (prefix "_attr" n) && negb (prefix "__attr" n).
 
@@ -394,16 +408,7 @@ Definition locals (s : hspec) (m : meth) : list string :=
 Definition locals_at (s : hspec) (m : meth) (st : site) : list string :=
   match st with Body => locals s m | DefTime => method_names end.
 
-(** *** Guards *)
-
-Definition registers_key (s : hspec) (a : attribute) : bool :=
-  has_key a && ((h_eq s && a_eq a) || (h_hash s && in_hash a)).
-
-(** Field names of custom-repr / eq-key helpers keep clear of the four prefixes. *)
-Definition naming_guard (s : hspec) : bool :=
-  forallb (fun a =>
-    (negb (h_repr s && has_custom_repr s a) || name_guard RRepr (a_name a))
-    && (negb (registers_key s a) || name_guard RKey (a_name a))) (attrs_of s).
+(** *** Guard *)
 
 Definition names_of (l : list ref) : list string := map (fun r => snd (fst r)) l.
 
@@ -418,7 +423,9 @@ Definition alias_guard (s : hspec) : bool :=
   | None => true
   end.
 
-Definition guard (s : hspec) : bool := naming_guard s && alias_guard s.
+(** Since the repr / key helpers got prefixed names no condition on field names is
+    needed any more; what remains is K9. *)
+Definition guard (s : hspec) : bool := alias_guard s.
 
 (** *** The wrapper [__getattr__] of slotted classes with cached properties
     ([_make_cached_property_getattr]): compiled with its own three globals, the
